@@ -246,6 +246,7 @@ class GModel:
     assigns: dict = field(default_factory=dict)   # name -> (expr, comp)  (intermediates and derivatives)
     order: list = field(default_factory=list)     # a topological order of all assignment names
     units: dict = field(default_factory=dict)     # assignment name -> trailing comment text
+    tags: dict = field(default_factory=dict)      # atom name -> tuple of components (atoms shared between components)
     header: str | None = None
 
     def deriv_of(self, s):
@@ -263,13 +264,16 @@ class GModel:
 
     # ---- rendering
     def blocks(self, rng: random.Random | None = None):
-        """list of (kind, comp, [lines]) in a canonical safe order"""
+        """list of (kind, comp, [lines]) in a canonical safe order; `comp` is a string or, for
+        atoms shared between components, a tuple of strings"""
         out = []
         comps = ([""] if "" in self.comps else []) + [c for c in self.comps if c != ""]
-        for c in comps:
-            st = [n for n, (_, cc) in self.states.items() if cc == c]
-            pa = [n for n, (_, cc) in self.params.items() if cc == c]
-            asg = [n for n in self.assigns if self.assigns[n][1] == c]
+        keys = list(comps) + sorted({t for t in self.tags.values()})
+        tag = lambda n, c: self.tags.get(n, c)  # noqa: E731
+        for c in keys:
+            st = [n for n, (_, cc) in self.states.items() if tag(n, cc) == c]
+            pa = [n for n, (_, cc) in self.params.items() if tag(n, cc) == c]
+            asg = [n for n in self.assigns if tag(n, self.assigns[n][1]) == c]
             if st:
                 out.append(("states", c, [f"{n}={sexp.render(self.states[n][0], 0, rng)}" for n in st]))
             if pa:
@@ -297,12 +301,13 @@ class GModel:
 
 
 def render_block(kind, c, lines, rng=None):
+    names = ", ".join(f'"{x}"' for x in c) if isinstance(c, tuple) else (f'"{c}"' if c else "")
     if kind in ("states", "parameters"):
-        head = f'{kind}("{c}", ' if c else f"{kind}("
+        head = f"{kind}({names}, " if names else f"{kind}("
         if rng is not None and rng.random() < 0.5:
             return head + "\n    " + ",\n    ".join(lines) + "\n)"
         return head + ", ".join(lines) + ")"
-    head = (f'expressions("{c}")\n' if c else "")
+    head = (f"expressions({names})\n" if names else "")
     return head + "\n".join(lines)
 
 
@@ -323,6 +328,7 @@ class ModelCfg:
     expr: ExprCfg = field(default_factory=ExprCfg)
     plain_names: bool = False
     force_comps: bool = False   # at least two named components
+    p_shared: float = 0.0       # an atom tagged with two components
 
 
 def gen_value(rng, cfg: ModelCfg):
@@ -421,6 +427,18 @@ def gen_model(rng: random.Random, cfg: ModelCfg | None = None) -> GModel:
         m.assigns[d] = (e, c)
         m.order.append(d)
         dnames.append(d)
+    named = [c for c in comps if c != ""]
+    if len(named) >= 2 and rng.random() < cfg.p_shared:
+        pair = tuple(rng.sample(named, 2))
+        k = rng.random()
+        if k < 0.5:
+            m.tags[rng.choice(list(m.params))] = pair
+        elif k < 0.8 and inter_names:
+            m.tags[rng.choice(inter_names)] = pair
+        else:
+            s_ = rng.choice(list(m.states))
+            m.tags[s_] = pair
+            m.tags[m.deriv_of(s_)] = pair
     if dnames and rng.random() < cfg.p_ref_deriv * 2:
         # a monitored quantity computed from derivatives (e.g. a power or a flux balance)
         n = name("i")
